@@ -1,6 +1,6 @@
 SPECIFICATION Spec
 CONSTANTS
-  Families = {"A1", "B", "C1"}
+  Families = {"A1", "B", "C1", "E"}
 INVARIANT CacheInDatainfo
 PROPERTY DriverOnlyIfAllowed
 PROPERTY ErrorLeavesNoTrace
